@@ -567,3 +567,157 @@ T("C12", "twin-rename-saved-value", (WF, """        old_val = self._amplitude_ve
             self._amplitude_vector[idx] = previous
 """))
 T("C12", "twin-bind-named-class", (WF, "            return type(self)(result)\n", "            return Wavefunction(result)\n"))
+
+# ----------------------------------------------------------------------------- C06
+OPR = "circuits/_operations.py"
+WOP = "circuits/_wavefunction_operations.py"
+B("C06", "power-bind-returns-self", (GAT, """    def bind(self, symbols_map: Dict[sympy.Symbol, Parameter]) -> "Gate":
+        raise NotImplementedError(
+            "Gates raised to a power do not possess free symbols to bind",
+        )""", """    def bind(self, symbols_map: Dict[sympy.Symbol, Parameter]) -> "Gate":
+        return self"""), rule="C06-D1")
+B("C06", "exponential-bind-conditional", (GAT, """    def bind(self, symbols_map) -> "Gate":
+        raise NotImplementedError(
+            "Gates exponential do not possess free symbols to bind"
+        )""", """    def bind(self, symbols_map) -> "Gate":
+        if symbols_map:
+            raise NotImplementedError(
+                "Gates exponential do not possess free symbols to bind"
+            )
+        return self"""), rule="C06-D1")
+B("C06", "skip-numeric-looking-params", (GAT, """    def bind(self, symbols_map) -> "MatrixFactoryGate":
+        return self.replace_params(
+            tuple(sub_symbols(param, symbols_map) for param in self.params)
+        )""", """    def bind(self, symbols_map) -> "MatrixFactoryGate":
+        return self.replace_params(
+            tuple(sub_symbols(param, symbols_map) for param in self.params if param in symbols_map)
+        )"""), rule="C06-D2")
+B("C06", "controlled-bind-single-control", (GAT, "return self.wrapped_gate.bind(symbols_map).controlled(self.num_control_qubits)", "return self.wrapped_gate.bind(symbols_map).controlled(1)"), rule="C06-D2")
+B("C06", "dagger-bind-drops-dagger", (GAT, "        return self.wrapped_gate.bind(symbols_map).dagger\n", "        return self.wrapped_gate.bind(symbols_map)\n"), rule="C06-D2")
+B("C06", "operation-bind-empty-map", (GAT, "return GateOperation(self.gate.bind(symbols_map), self.qubit_indices)", "return GateOperation(self.gate.bind({}), self.qubit_indices)"), rule="C06-D2")
+B("C06", "circuit-bind-drops-width", (CIR, """            operations=[op.bind(symbols_map) for op in self.operations],
+            n_qubits=self.n_qubits,
+        )""", """            operations=[op.bind(symbols_map) for op in self.operations],
+        )"""), rule="C06-D2")
+B("C06", "circuit-bind-skips-nongates", (CIR, "operations=[op.bind(symbols_map) for op in self.operations],", "operations=[op.bind(symbols_map) for op in self.operations if isinstance(op, _gates.GateOperation)],"), rule="C06-D2")
+B("C06", "symbol-arm-default-none", (OPR, "    return symbols_map.get(parameter, parameter)", "    return symbols_map.get(parameter)"), rule="C06-D3")
+B("C06", "number-arm-casts", (OPR, """) -> Number:
+    return parameter""", """) -> Number:
+    return float(parameter)"""), rule="C06-D3")
+B("C06", "free-symbols-via-atoms", (OPR, "        for symbol in param.free_symbols", "        for symbol in param.atoms(sympy.Symbol)"), rule="C06-D4")
+B("C06", "power-free-symbols-empty", (GAT, """    @property
+    def free_symbols(self) -> Iterable[sympy.Symbol]:
+        return get_free_symbols(self.params)
+
+    @property
+    def num_qubits(self) -> int:
+        return self.wrapped_gate.num_qubits
+
+    @property
+    def matrix(self) -> sympy.Matrix:
+        return self.wrapped_gate.matrix**self.exponent""", """    @property
+    def free_symbols(self) -> Iterable[sympy.Symbol]:
+        return []
+
+    @property
+    def num_qubits(self) -> int:
+        return self.wrapped_gate.num_qubits
+
+    @property
+    def matrix(self) -> sympy.Matrix:
+        return self.wrapped_gate.matrix**self.exponent"""), rule="C06-D4")
+B("C06", "circuit-free-symbols-sorted", (CIR, "        return symbols_sequence\n", "        return sorted(symbols_sequence, key=str)\n"), rule="C06-D4")
+B("C06", "reset-replace-via-dataclasses", (WOP, """        new_operation = ResetOperation(self.qubit_indices[0])
+        new_operation.params = new_params
+        return new_operation""", """        import dataclasses
+
+        return dataclasses.replace(self, params=new_params)"""), rule="C06-D5")
+B("C06", "custom-factory-by-sorted-name", (GAT, "{symbol: arg for symbol, arg in zip(self.params_ordering, gate_params)}", "{symbol: arg for symbol, arg in zip(sorted(self.params_ordering, key=str), gate_params)}"), rule="C06-D5")
+B("C06", "power-replace-params-drops-exponent", (GAT, "return self.wrapped_gate.replace_params(new_params).power(self.exponent)", "return self.wrapped_gate.replace_params(new_params)"), rule="C06-D2")
+T("C06", "twin-bind-list-comprehension", (GAT, """    def bind(self, symbols_map) -> "MatrixFactoryGate":
+        return self.replace_params(
+            tuple(sub_symbols(param, symbols_map) for param in self.params)
+        )""", """    def bind(self, symbols_map) -> "MatrixFactoryGate":
+        return self.replace_params(
+            tuple([sub_symbols(p, symbols_map) for p in self.params])
+        )"""))
+
+# ----------------------------------------------------------------------------- C07
+B("C07", "controlled-dagger-single-control", (GAT, """        return ControlledGate(
+            wrapped_gate=self.wrapped_gate.dagger,
+            num_control_qubits=self.num_control_qubits,
+        )""", """        return ControlledGate(
+            wrapped_gate=self.wrapped_gate.dagger,
+            num_control_qubits=1,
+        )"""), rule="C07-D1")
+B("C07", "power-dagger-drops-exponent", (GAT, "        return self.wrapped_gate.dagger.power(self.exponent)", "        return self.wrapped_gate.dagger"), rule="C07-D1")
+B("C07", "controlled-controlled-replaces-count", (GAT, "            num_control_qubits=self.num_control_qubits + num_control_qubits,", "            num_control_qubits=num_control_qubits,"), rule="C07-D1")
+B("C07", "exponential-controlled-commuted", (GAT, """    def controlled(self, num_control_qubits: int) -> Gate:
+        return ControlledGate(self, num_control_qubits)
+
+    def bind(self, symbols_map) -> "Gate":
+        raise NotImplementedError(
+            "Gates exponential""", """    def controlled(self, num_control_qubits: int) -> Gate:
+        return self.wrapped_gate.controlled(num_control_qubits).exp
+
+    def bind(self, symbols_map) -> "Gate":
+        raise NotImplementedError(
+            "Gates exponential"""), rule="C07-D1")
+B("C07", "dagger-of-dagger-wraps-again", (GAT, """    @property
+    def dagger(self) -> "Gate":
+        return self.wrapped_gate
+
+    @property
+    def exp(self) -> "Gate":
+        return Exponential(self)
+
+    def power(self, exponent: float) -> "Gate":
+        return Power(self, exponent)
+
+    def __str__(self):
+        wrapped_string""", """    @property
+    def dagger(self) -> "Gate":
+        return self.wrapped_gate.dagger
+
+    @property
+    def exp(self) -> "Gate":
+        return Exponential(self)
+
+    def power(self, exponent: float) -> "Gate":
+        return Power(self, exponent)
+
+    def __str__(self):
+        wrapped_string"""), rule="C07-D1")
+B("C07", "base-dagger-always-self", (GAT, "        return self if self.is_hermitian else Dagger(self)", "        return self"), rule="C07-D1")
+B("C07", "dagger-is-transpose", (GAT, "        return self.wrapped_gate.matrix.adjoint()", "        return self.wrapped_gate.matrix.transpose()"), rule="C07-D3")
+B("C07", "controlled-block-order", (GAT, """        return sympy.Matrix.diag(
+            sympy.eye(2**self.num_qubits - 2**self.wrapped_gate.num_qubits),
+            self.wrapped_gate.matrix,
+        )""", """        return sympy.Matrix.diag(
+            self.wrapped_gate.matrix,
+            sympy.eye(2**self.num_qubits - 2**self.wrapped_gate.num_qubits),
+        )"""), rule="C07-D3")
+B("C07", "controlled-identity-size", (GAT, "sympy.eye(2**self.num_qubits - 2**self.wrapped_gate.num_qubits),", "sympy.eye(2**self.num_control_qubits),"), rule="C07-D3")
+B("C07", "power-ignores-exponent", (GAT, "        return self.wrapped_gate.matrix**self.exponent", "        return self.wrapped_gate.matrix**2"), rule="C07-D3")
+B("C07", "controlled-num-qubits-forgets-controls", (GAT, "        return self.wrapped_gate.num_qubits + self.num_control_qubits", "        return self.wrapped_gate.num_qubits + 1"), rule="C07-D2")
+B("C07", "zero-controls-accepted", (GAT, "        if self.num_control_qubits < 1:", "        if self.num_control_qubits < 0:"), rule="C07-D4")
+B("C07", "exp-matrix-cached-by-name", (GAT, """    @property
+    def matrix(self) -> sympy.Matrix:
+        return self.wrapped_gate.matrix.exp()""", """    @property
+    def matrix(self) -> sympy.Matrix:
+        key = (self.wrapped_gate.name, self.num_qubits, self.params)
+        if key not in _EXP_CACHE:
+            _EXP_CACHE[key] = self.wrapped_gate.matrix.exp()
+        return _EXP_CACHE[key]"""), (GAT, 'POWER_GATE_SYMBOL = "^"\n', 'POWER_GATE_SYMBOL = "^"\n_EXP_CACHE = {}\n'), rule="C07-D")
+B("C07", "custom-symmetric-flag", (GAT, """            gate_params,
+            self._n_qubits,
+        )""", """            gate_params,
+            self._n_qubits,
+            self.matrix.is_symmetric(),
+        )"""), rule="C07-D3")
+T("C07", "twin-controlled-power-reassociated", (GAT, """        return ControlledGate(
+            wrapped_gate=self.wrapped_gate.power(exponent),
+            num_control_qubits=self.num_control_qubits,
+        )""", """        return self.wrapped_gate.power(exponent).controlled(self.num_control_qubits)"""))
+T("C07", "twin-dagger-via-H", (GAT, "        return self.wrapped_gate.matrix.adjoint()", "        return self.wrapped_gate.matrix.H"))
+T("C07", "twin-power-dagger-reordered", (GAT, "        return self.wrapped_gate.dagger.power(self.exponent)", "        return Dagger(Power(self.wrapped_gate, self.exponent))"))
